@@ -34,3 +34,21 @@ package asr
 //@     invariant [max_attained_or_zero] max == 0.0 || (exists j int :: {old(neighborStates.counts[j])} 0 <= j && j < len(neighborStates.counts) && old(neighborStates.counts[j]) == max)
 //@     invariant [unread_part_untouched] forall j int :: {neighborStates.counts[j]} rangeindex < j && j < len(neighborStates.counts) ==> neighborStates.counts[j] == old(neighborStates.counts[j])
 //@     invariant [done_prefix] forall k int :: {currentStates.counts[k]} 0 <= k && k <= rangeindex ==> (currentStates.counts[k] == 1.0 || currentStates.counts[k] == 0.0) && (currentStates.counts[k] == 1.0 <==> old(neighborStates.counts[k]) == max)
+
+// ---------------------------------------------------------------------------
+// Sequence parsimony, down-pass (property C12): for every child and every site the neighbour counts are
+// accumulated in a buffer made for that child and site, and the result goes to that child's up-state (first part)
+// or to the node's own state (second part) at the same site
+// ---------------------------------------------------------------------------
+
+//@ func asr.parsimonyDOWNPASS
+//@   flag noframe
+//@   requires cur != nil
+//@   call asr.computeParsimony@L2 [up_state_of_a_child_at_a_site_from_a_buffer_made_for_that_child_and_site] freshiter(a0.counts) && a1.counts == upseqs[child.id].seq[j].counts && child != prev
+//@   call asr.computeParsimony@L6 [state_of_the_node_at_a_site_from_a_buffer_made_for_that_site] freshiter(a0.counts) && a1.counts == seqs[cur.id].seq[j].counts && prev != nil
+//@   call asr.parsimonyDOWNPASS [recursion_goes_to_the_children_only_with_the_same_tables] a0 == child && child != prev && a1 == cur && a3 == seqs && a4 == upseqs
+
+// randomlyResolveNodeStates keeps one of the retained states, drawn with math/rand: rewrites state counts only (thin)
+//@ func asr.randomlyResolveNodeStates
+//@   requires node != nil
+//@   assigns elems("float64"), ghost(rand_count), ghost(rand_last), ghost(rand_range)
